@@ -75,6 +75,14 @@ type rawResponse struct {
 	Error   *Error                 `json:"error,omitempty"`
 }
 
+// rawOrNull returns the JSON text of an element; a null element may arrive as an empty message.
+func rawOrNull(raw json.RawMessage) []byte {
+	if len(raw) == 0 {
+		return []byte("null")
+	}
+	return raw
+}
+
 const (
 	messageParseError     = "Parse error"
 	messageInvalidRequest = "Invalid Request"
